@@ -382,8 +382,8 @@ def o134(ctx):
                 if e.kind == "inplace" and e.fn.startswith(CM):
                     ctx.count(1)
         # the same mask listed twice is two entries of the list (subtraction([A, A]) is empty, not A): nothing may drop a repeated entry
-        m0 = Val(sym("m0"))
-        for lst, names in (([m0, m0], ("m0", "m0")), ([m0, Val(sym("m1")), m0], ("m0", "m1", "m0"))):
+        m0 = typed(Val(sym("m0")), "ndarray")
+        for lst, names in (([m0, m0], ("m0", "m0")), ([m0, typed(Val(sym("m1")), "ndarray"), m0], ("m0", "m1", "m0"))):
             it = Interp(ctx.prog, summaries=summ)
             r = it.run(q, [Seq(list(lst), "list")], {})
             t = to_term(r.ret)
